@@ -51,6 +51,8 @@ func checkC20(w *World, r *Report) {
 	iv := newInv(w, r, "C20.inventory", c20Vetted)
 	roots := append(append(append([]*ssa.Function{}, flatten(ro.MSG)...), flatten(ro.VB)...), flatten(ro.QRY)...)
 	iv.Run(roots, "MSG+VB+QRY")
+	r.Rule("C20.zerolit", "P4", "every composite literal of a module struct type built on a message, ValidateBasic, query or block tree assigns each of its math.Int / sdk.Dec fields (the zero value holds a nil big.Int and arithmetic on it panics), or is a reviewed literal whose number fields are never read", 2)
+	zeroLitRule(w, r, "C20.zerolit", append(append([]*ssa.Function{}, roots...), flatten(ro.BLK)...))
 	iv.Finish()
 	if w.Tier == "thorough" {
 		r.Rule("C20.discovery", "P4", "thorough tier: every distinct dependency function called on the message / ValidateBasic / query trees is either an inventory class or in the reviewed table (the allow-list is closed)", 100)
